@@ -1,4 +1,4 @@
-import AikenVerif.Lemmas.TextTerm
+import AikenVerif.Lemmas.TextNoNewline
 /-!
 # C15 — UPLC text round-trips: property theorems
 
@@ -149,6 +149,25 @@ theorem text_roundtrip (p : Program Name) (hw : WellFormed p) (hn : NamesConsist
     ∃ ts q, printProgram p = some ts ∧ parseProgram ts = some q ∧ AlphaEq q p := by
   obtain ⟨h1, h2⟩ := parse_print_eq_relabel p hw
   exact ⟨_, _, h1, h2, rfl, nameless_relabel p.term hn⟩
+
+/-- **Layout is irrelevant.** The same holds for *every* layout of the document — every choice of which
+soft breaks (`line_()`: before the closing parenthesis of `lam`/`delay`/`force`/`con`/`builtin`/`constr`/
+`case`/`program` and of list types) are rendered as white space; hard breaks and spaces are white space
+in any case.  The flat rendering used above is the layout `fun _ => false`. -/
+theorem text_roundtrip_any_layout (p : Program Name) (hw : WellFormed p) (hn : NamesConsistent p) (w : Layout) :
+    ∃ q, parseProgram (printProgramTokensL w p) = some q ∧ AlphaEq q p :=
+  ⟨_, parseProgram_printL w p hw, rfl, nameless_relabel p.term hn⟩
+
+theorem flat_is_a_layout (p : Program Name) : printProgramTokensL (fun _ => false) p = printProgramTokens p :=
+  printProgramTokensL_flat p
+
+/-- … and no token of any rendering contains a raw new-line character (strings are escaped, everything
+else is a table word, digits, hex or an identifier), so the line-based post-processing in `to_pretty`
+(blanking white-space-only lines, re-joining with `\n`) cannot change a token -/
+theorem print_tokens_no_newline (p : Program Name) (hw : WellFormed p) (w : Layout) :
+    ∀ tk ∈ printProgramTokensL w p, tokOk tk = true := by
+  have := printProgramTokensL_ok w p hw
+  simpa [toksOk] using this
 
 /-- printing what was parsed from printer output gives the same tokens again (what `aiken uplc fmt`
 relies on); no hypothesis on names -/
